@@ -158,7 +158,8 @@ TEXT["C18"] = dict(
           "progress in [0, 1] at the weight pairs (0.9, 0.4) and (0.4, 0.9) (Kani). The other clauses (velocities within [-v_max, v_max], "
           "moved by exactly the new velocity, the stored weight scales the old velocity, personal best = best evaluated position and "
           "never worse, global best = best personal best, one entry per particle) live in State-based bodies built from multizip loops "
-          "and f64 arithmetic and are covered ONLY by bounded native runs of the real PSO template with probes between its components."),
+          "and f64 arithmetic and are covered ONLY by bounded native runs: the PSO components assembled as in the template with probes between them, and "
+          "the shipped real_pso template itself (final-state memories for ordinary, social-only and cognitive-only swarms)."),
     note=("Level 'other'. Planned as not applicable; the interpolation clause turned out to be the mapping() contract already proved for "
           "C17 plus one float kernel. Everything else is native_bounded in the evidence, never counted as proved. Linear::map with "
           "symbolic weights does not finish in CBMC."),
